@@ -858,10 +858,18 @@ def rekey(ctx, chk):
             if isinstance(v, CollV) and v.known == () and src is None:
                 # an empty row standing for a source row that was looked up and found absent
                 # (`old.get(&y).cloned().unwrap_or_default()`): the source is that key
-                evs_here = st.event_list()
-                absent_keys = [e2[3] for e2 in evs_here if e2[0] == 'branch' and e2[1] == 'map.get.none' and e2[2] == ('S', 'buffer')]
-                if absent_keys and isinstance(absent_keys[-1], NumV) and isinstance(getattr(v, 'prov', None), tuple) and v.prov and v.prov[0] == 'default':
-                    src = absent_keys[-1]
+                # (also `.unwrap_or_else(HashMap::new)` / `match .. { None => HashMap::new() }`): the lookup must
+                # be the last thing that happened to the old grid on this path, in this iteration
+                last = None
+                for e2 in reversed(st.event_list()):
+                    if e2[0] == 'loop-head':
+                        break
+                    if e2[0] == 'branch' and e2[1] in ('map.get.none', 'map.get.some', 'map.remove.none', 'map.remove.some') and e2[2] == ('S', 'buffer'):
+                        last = e2
+                        break
+                if last is not None and last[1] == 'map.get.none' and isinstance(last[3], NumV) and isinstance(getattr(v, 'prov', None), tuple) \
+                        and v.prov and v.prov[0] in ('default', 'new'):
+                    src = last[3]
             if isinstance(v, CollV) and v.known == () and src is None:
                 vac = bottom if meth == 'index' else top
                 ok = eng.prove_cmp(st, 'eq', key, vac) is True
@@ -1044,13 +1052,9 @@ def run_c17(ctx, chk):
             chk.findings.append(fd)
 
 
-def all_rows_marked(eng, st, evs, ctx=None, sr=None):
+def all_rows_marked(eng, st, evs, ctx, sr=None):
     lines = get(eng, st, 'lines')
-    if ctx is not None and sr is not None:
-        marks = g.dirty_marks(ctx, sr, evs)
-    else:
-        marks = [('range', ev[2][1], ev[2][2], bool(ev[2][3])) for ev in evs
-                 if ev[0] == 'set.extend' and ev[1] == ('S', 'dirty') and isinstance(ev[2], tuple) and ev[2][0] == 'range']
+    marks = g.dirty_marks(ctx, sr if sr is not None else ctx.screen_run(), evs)
     for m in marks:
         if m[0] != 'range':
             continue
@@ -1086,7 +1090,7 @@ def decscnm_dirty(ctx, chk):
             except Budget as e:
                 chk.instance('R-DIRTY', 'Screen::' + name, 'DECSCNM %s marks every row' % ('?5' if private else 'as %d' % DECSCNM), False, detail=str(e), undischarged=True)
                 continue
-            bad = [1 for (st, ret) in res if not all_rows_marked(eng, st, st.event_list())]
+            bad = [1 for (st, ret) in res if not all_rows_marked(eng, st, st.event_list(), ctx)]
             chk.instance('R-DIRTY', 'Screen::' + name, 'DECSCNM spelled %s marks every row' % ('`?5`' if private else 'as the shifted constant %d' % DECSCNM),
                          bool(res) and not bad, detail='%d of %d exit paths leave rows unmarked' % (len(bad), len(res)), span=prog.bodies[ep(name)].span,
                          what='%s(&[%s], %s) flips reverse video on every cell without marking the rows dirty' % (name, modes[0], str(private).lower()))
